@@ -25,7 +25,7 @@ C24-EXACT — a caller-supplied keyword name reaches a representation-level stri
 """
 import ast, re
 
-from ..core import Rule, AnalysisError, node_src
+from ..core import Rule, AnalysisError
 from ..engine import pyflow, cexpr
 from ..engine.pyindex import walk_no_nested
 from ..engine.cutil import strip_c_comments, split_args, match_paren
@@ -244,35 +244,45 @@ def _reachers(g, target):
 
 
 def same_path(methods, a, b):
-    """is there a method with a path on which both (a call leading to) method a and (a call leading to) method b are executed?"""
+    """is there a method with a path on which both method a and method b are executed (directly or through calls of other methods)?
+    A call of a method that leads to both only counts when the two are on a common path inside it."""
     if a == b:
         return True
     g = _callgraph(methods)
     ra, rb = _reachers(g, a), _reachers(g, b)
-    if a in rb or b in ra:
-        return True
-    for m, fn in methods.items():
-        if not (g[m] & ra and g[m] & rb):
-            continue
+    memo = {}
+
+    def co(m):
+        if m in memo:
+            return memo[m]
+        memo[m] = False
+        fn = methods[m]
 
         def tr(n, state):
-            s = set(state)
             if isinstance(n, (ast.FunctionDef, ast.AsyncFunctionDef, ast.ClassDef)):
                 return state
+            s = set(state)
             for c in ast.walk(n):
-                if isinstance(c, ast.Call) and isinstance(c.func, ast.Attribute) and isinstance(c.func.value, ast.Name) and c.func.value.id == 'self':
-                    if c.func.attr in ra:
+                if isinstance(c, ast.Call) and isinstance(c.func, ast.Attribute) and isinstance(c.func.value, ast.Name) and c.func.value.id == 'self' \
+                        and c.func.attr in methods and c.func.attr != m:
+                    k = c.func.attr
+                    if k in ra and k in rb:
+                        if co(k):
+                            s |= {'A', 'B'}
+                    elif k in ra:
                         s.add('A')
-                    if c.func.attr in rb:
+                    elif k in rb:
                         s.add('B')
             return frozenset(s)
+        init = frozenset(({'A'} if m == a else set()) | ({'B'} if m == b else set()))
         try:
-            o = pyflow.Flow(tr).run(fn)
+            o = pyflow.Flow(tr).run(fn, init)
         except pyflow.TooManyStates:
+            memo[m] = True
             return True
-        if any('A' in st and 'B' in st for st in (o.normal | o.returns)):
-            return True
-    return False
+        memo[m] = any('A' in st and 'B' in st for st in (o.normal | o.returns))
+        return memo[m]
+    return any(co(m) for m in methods if m in ra and m in rb)
 
 
 def kw2_facts(cls_methods, positions, clsname='Nodes.DefNodeWrapper'):
@@ -421,4 +431,378 @@ def rule_kw2(ctx, floor=8):
     cf, _ = kw2_facts(cm, (3, 8, 9), 'W')
     ctl = kw2_problems(cf, 'W')
     r.positive_control([k for k, _, _ in ctl] == ['W.unpack:__Pyx_ParseKeywords:unused'], 'ignore_unknown_kwargs tied to cf_used')
+    return r
+
+
+# ======================================================================================= C24-EXACT (taint: keyword name -> raw string comparison)
+DOMAIN = ('exact', 'subclass', 'nonstr')
+TYPE_ATOMS = {'PyUnicode_CheckExact': (True, False, False), 'PyUnicode_Check': (True, True, False),
+              '__Pyx_PyUnicode_CheckExact': (True, False, False)}
+RAW_CASTS = re.compile(r'\(\s*(?:struct\s+)?Py(?:ASCII|CompactUnicode|Unicode)Object\s*\*\s*\)\s*\(?\s*([A-Za-z_]\w*)\b')
+RAW_CALLS = ('PyUnicode_DATA', 'PyUnicode_1BYTE_DATA', 'PyUnicode_2BYTE_DATA', 'PyUnicode_4BYTE_DATA', '__Pyx_PyUnicode_DATA', 'PyUnicode_READ_CHAR',
+             '__Pyx_PyUnicode_READ_CHAR', 'PyUnicode_Compare', 'PyUnicode_CompareWithASCIIString', '_PyUnicode_EQ', '_PyUnicode_Equal', 'PyUnicode_EqualToUTF8',
+             'PyUnicode_EqualToUTF8AndSize', 'PyUnicode_AsUTF8', 'PyUnicode_AsUTF8AndSize', '_PyUnicode_EqualToASCIIString', 'PyUnicode_Tailmatch', 'PyUnicode_AS_UNICODE')
+C_FUNC_HEAD = re.compile(r'^(?:static|CYTHON_INLINE|CYTHON_UNUSED|[A-Za-z_][\w \t\*]*?)[ \t\*]+([A-Za-z_]\w*)\s*\(([^;{}()]*(?:\([^()]*\)[^;{}()]*)*)\)\s*\{', re.M)
+CKEYWORDS = {'if', 'while', 'for', 'switch', 'return', 'sizeof', 'do', 'else'}
+
+
+class CFn:
+    def __init__(self, name, params, body, line):
+        self.name, self.params, self.body, self.line = name, params, body, line
+
+
+def c_functions(text):
+    """{name: CFn} of the function definitions in a C file (comments already blanked)"""
+    from ..engine.cguard import _match_brace
+    out = {}
+    pos = 0
+    while True:
+        m = C_FUNC_HEAD.search(text, pos)
+        if not m:
+            break
+        name = m.group(1)
+        b0 = m.end() - 1
+        b1 = _match_brace(text, b0)
+        if name in CKEYWORDS:
+            pos = m.end()
+            continue
+        params = []
+        for p in split_args(' '.join(m.group(2).split())):
+            mm = re.search(r'([A-Za-z_]\w*)\s*(?:\[[^\]]*\])?\s*$', p)
+            params.append(mm.group(1) if mm else None)
+        out.setdefault(name, []).append(CFn(name, params, text[b0:b1 + 1], text.count('\n', 0, m.start()) + 1))
+        pos = b1 + 1
+    return out
+
+
+def _expr_part(text):
+    """the expression of a simple statement: right-hand side of a top-level assignment/initialiser, or the operand of return"""
+    t = re.sub(r'^return\b', '', text.strip()).strip()
+    depth = 0
+    for i, ch in enumerate(t):
+        if ch in '([{':
+            depth += 1
+        elif ch in ')]}':
+            depth -= 1
+        elif ch == '=' and depth == 0 and t[i + 1:i + 2] != '=' and (i == 0 or t[i - 1] not in '=!<>+-*/|&^%'):
+            return t[i + 1:].strip()
+    return t
+
+
+def _assigned_vars(text):
+    out = set(re.findall(r'(?<![\w>.])([A-Za-z_]\w*)\s*(?:\[[^\]]*\])?\s*(?:[-+*/|&^]|<<|>>)?=(?!=)', text))
+    out |= set(re.findall(r'&\s*([A-Za-z_]\w*)\b', text))
+    out |= set(re.findall(r'(?<![\w>.])([A-Za-z_]\w*)\s*(?:\+\+|--)', text)) | set(re.findall(r'(?:\+\+|--)\s*([A-Za-z_]\w*)', text))
+    return out
+
+
+def _cond_ast(text):
+    # ((T*)x)->f  ->  x->f : cexpr has no postfix on parenthesised casts; the operand stays visible
+    text = re.sub(r'\(\s*\(\s*(?:struct\s+)?[A-Za-z_]\w*\s*\*+\s*\)\s*([A-Za-z_]\w*)\s*\)\s*->', r'\1->', text)
+    try:
+        return cexpr.parse(blank_strings(text))
+    except (cexpr.ParseError, ValueError):
+        return None
+
+
+def type_eval(e, var, d):
+    """truth of a condition for the object `var` being in class d of DOMAIN; None = does not depend on it / unknown"""
+    if e is None:
+        return None
+    k = e[0]
+    if k == 'call' and e[1] in ('likely', 'unlikely', '__builtin_expect') and e[2]:
+        return type_eval(e[2][0], var, d)
+    if k == 'cast':
+        return type_eval(e[2], var, d)
+    if k == 'call' and e[1] in TYPE_ATOMS and len(e[2]) == 1 and e[2][0] == ('id', var):
+        return TYPE_ATOMS[e[1]][DOMAIN.index(d)]
+    if k == 'call' and e[1] == 'Py_IS_TYPE' and len(e[2]) == 2 and e[2][0] == ('id', var) and e[2][1] == ('un', '&', ('id', 'PyUnicode_Type')):
+        return d == 'exact'
+    if k == 'bin' and e[1] in ('==', '!=') and ('un', '&', ('id', 'PyUnicode_Type')) in (e[2], e[3]):
+        other = e[3] if e[2] == ('un', '&', ('id', 'PyUnicode_Type')) else e[2]
+        if other == ('call', 'Py_TYPE', [('id', var)]):
+            return (d == 'exact') == (e[1] == '==')
+        return None
+    if k == 'un' and e[1] == '!':
+        v = type_eval(e[2], var, d)
+        return None if v is None else (not v)
+    if k == 'bin' and e[1] in ('&&', '||'):
+        a, b = type_eval(e[2], var, d), type_eval(e[3], var, d)
+        if e[1] == '&&':
+            if a is False or b is False:
+                return False
+            return True if (a and b) else None
+        if a is True or b is True:
+            return True
+        return False if (a is False and b is False) else None
+    return None
+
+
+def reach(conds, var):
+    """{d: may the program point be reached when `var` is in class d}"""
+    out = {}
+    for d in DOMAIN:
+        ok = True
+        for e, pol in conds:
+            v = type_eval(e, var, d)
+            if v is not None and v != pol:
+                ok = False
+                break
+        out[d] = ok
+    return out
+
+
+class Site:
+    def __init__(self, func, kind, what, var, conds, argpos=None, callee=None):
+        self.func, self.kind, self.what, self.var, self.conds, self.argpos, self.callee = func, kind, what, var, conds, argpos, callee
+
+
+def _mentions(e, name):
+    return e is not None and any(x[0] == 'id' and (x[1] == name or x[1].startswith(name + '->')) for x in cexpr.walk(e))
+
+
+def function_sites(fn, known):
+    """raw string operations and calls of functions in `known` inside one C function (one #if variant at a time):
+    [Site] with the path condition (list of (condition ast, polarity)) under which each is executed"""
+    sites = []
+
+    def expr_sites(text, conds, whole_is_cond=False):
+        t = text if whole_is_cond else _expr_part(text)
+        e = _cond_ast(t)
+        found_calls = set(re.findall(r'\b([A-Za-z_]\w*)\s*\(', t))
+        interesting = (found_calls & (set(known) | set(RAW_CALLS))) or RAW_CASTS.search(text)
+        if not interesting:
+            return
+        if e is None:
+            if re.search(r'\?|&&|\|\|', t) and ((found_calls & set(known)) or any(re.search(r'\b%s\s*\([^;]*(\?|&&|\|\|)|(\?|&&|\|\|)[^;]*\b%s\s*\(' % (c, c), t) for c in found_calls & set(RAW_CALLS))):
+                raise AnalysisError('%s: cannot parse `%s` although it contains a conditional operator and a tracked call' % (fn.name, ' '.join(t.split())[:90]))
+            for m in RAW_CASTS.finditer(text):
+                sites.append(Site(fn.name, 'raw', 'cast of %s to a unicode struct' % m.group(1), m.group(1), list(conds)))
+            for m in re.finditer(r'\b([A-Za-z_]\w*)\s*\(', t):
+                name = m.group(1)
+                if name in RAW_CALLS or name in known:
+                    q = match_paren(t, m.end() - 1)
+                    args = [a.strip() for a in split_args(t[m.end():q])] if q > 0 else []
+                    for i, a in enumerate(args):
+                        if re.fullmatch(r'[A-Za-z_]\w*', a):
+                            sites.append(Site(fn.name, 'raw' if name in RAW_CALLS else 'call', '%s(...)' % name, a, list(conds), i, name))
+            return
+
+        def rec(x, cs):
+            k = x[0]
+            if k == 'tern':
+                rec(x[1], cs)
+                rec(x[2], cs + [(x[1], True)])
+                rec(x[3], cs + [(x[1], False)])
+                return
+            if k == 'bin' and x[1] in ('&&', '||'):
+                rec(x[2], cs)
+                rec(x[3], cs + [(x[2], x[1] == '&&')])
+                return
+            if k == 'call':
+                if x[1] in RAW_CALLS or x[1] in known:
+                    for i, a in enumerate(x[2]):
+                        aa = a
+                        while aa[0] == 'cast':
+                            aa = aa[2]
+                        if aa[0] == 'id' and re.fullmatch(r'[A-Za-z_]\w*', aa[1]):
+                            sites.append(Site(fn.name, 'raw' if x[1] in RAW_CALLS else 'call', '%s(...)' % x[1], aa[1], list(cs), i, x[1]))
+                for a in x[2]:
+                    rec(a, cs)
+                return
+            for y in x[1:]:
+                if isinstance(y, tuple):
+                    rec(y, cs)
+        rec(e, list(conds))
+        for m in RAW_CASTS.finditer(text):
+            sites.append(Site(fn.name, 'raw', 'cast of %s to a unicode struct' % m.group(1), m.group(1), list(conds)))
+
+    def kill(conds, names):
+        return [(e, p) for e, p in conds if not any(_mentions(e, n) for n in names)]
+
+    def sub_assigned(st):
+        out = set()
+        from .pC17 import walk as st_walk
+        for x in st_walk([st]):
+            if x.kind == 'simple':
+                out |= _assigned_vars(x.text)
+            elif x.kind == 'for':
+                out |= _assigned_vars(x.text)
+        return out
+
+    def walk(stmts, conds):
+        conds = list(conds)
+        for st in stmts:
+            k = st.kind
+            if k == 'simple':
+                expr_sites(st.text, conds)
+                conds = kill(conds, _assigned_vars(st.text))
+            elif k == 'block':
+                conds = walk(st.body, conds)
+            elif k == 'if':
+                expr_sites(st.text, conds, True)
+                ce = _cond_ast(st.text)
+                walk(as_list(st.body), conds + [(ce, True)])
+                if st.orelse is not None:
+                    walk(as_list(st.orelse), conds + [(ce, False)])
+                body_t = terminates(as_list(st.body))
+                else_t = st.orelse is not None and terminates(as_list(st.orelse))
+                conds = kill(conds, sub_assigned(st))
+                if ce is not None and not (sub_assigned(st) and any(_mentions(ce, n) for n in sub_assigned(st))):
+                    if body_t and not else_t:
+                        conds.append((ce, False))
+                    elif else_t and not body_t:
+                        conds.append((ce, True))
+            elif k in ('while', 'for', 'do', 'switch'):
+                conds = kill(conds, sub_assigned(st))
+                inner = list(conds)
+                if k == 'while':
+                    expr_sites(st.text, conds, True)
+                    ce = _cond_ast(st.text)
+                    if ce is not None and not any(_mentions(ce, n) for n in sub_assigned(st)):
+                        inner.append((ce, True))
+                elif k == 'for':
+                    for part in st.text.split(';'):
+                        expr_sites(part, conds)
+                elif k == 'do':
+                    expr_sites(st.text, conds, True)
+                walk(as_list(st.body), inner)
+            elif k == 'label':
+                conds = []
+            elif k in ('case', 'default'):
+                continue
+            elif k == 'pp':
+                raise AnalysisError('%s: preprocessor line left in the body' % fn.name)
+        return conds
+
+    for label, variant in pp_variants(fn.body):
+        walk(parse_body(variant), [])
+    return sites
+
+
+def tainted_locals(fn):
+    """locals of fn that receive an object out of a caller-supplied container: assigned from a call that gets a parameter of fn,
+    or passed by address to such a call"""
+    params = [p for p in fn.params if p]
+    out = set()
+    body = fn.body
+    for m in re.finditer(r'(?<![\w>.])([A-Za-z_]\w*)\s*=(?!=)\s*(?:\([^()]*\)\s*)?([A-Za-z_]\w*)\s*\(', body):
+        q = match_paren(body, m.end() - 1)
+        args = body[m.end():q] if q > 0 else ''
+        if any(re.search(r'\b%s\b' % re.escape(p), args) for p in params) and m.group(1) not in params:
+            out.add(m.group(1))
+    for m in re.finditer(r'\b([A-Za-z_]\w*)\s*\(', body):
+        q = match_paren(body, m.end() - 1)
+        args = body[m.end():q] if q > 0 else ''
+        if any(re.search(r'\b%s\b' % re.escape(p), args) for p in params):
+            for a in re.findall(r'&\s*([A-Za-z_]\w*)\b', args):
+                if a not in params:
+                    out.add(a)
+    return out
+
+
+def exact_analysis(text, fname='FunctionArguments.c'):
+    """-> (instances [(key, sample)], violations [(key, line, message)])"""
+    fns_all = c_functions(text)
+    fns = {n: v[0] for n, v in fns_all.items()}
+    sinks = {}          # function -> {param index: reason}
+    cache = {}
+
+    def sites_of(f):
+        key = (f, tuple(sorted((g, tuple(sorted(ix))) for g, ix in sinks.items() if ix)))
+        if key not in cache:
+            known = {g for g, ix in sinks.items() if ix}
+            out = []
+            for variant_fn in fns_all[f]:
+                out += function_sites(variant_fn, known)
+            cache[key] = out
+        return cache[key]
+
+    def requirement_sites(f):
+        for s in sites_of(f):
+            if s.kind == 'call':
+                if s.argpos not in sinks.get(s.callee, {}):
+                    continue
+            yield s
+
+    changed = True
+    rounds = 0
+    while changed:
+        changed = False
+        rounds += 1
+        if rounds > 20:
+            raise AnalysisError('C24-EXACT: sink propagation does not converge')
+        for f, fn in fns.items():
+            for s in requirement_sites(f):
+                rc = reach(s.conds, s.var)
+                if (rc['subclass'] or rc['nonstr']) and s.var in fn.params:
+                    i = fn.params.index(s.var)
+                    if i not in sinks.setdefault(f, {}):
+                        why = s.what if s.kind == 'raw' else '%s, whose parameter %d needs an exact str (%s)' % (s.what, s.argpos + 1, sinks[s.callee][s.argpos])
+                        sinks[f][i] = why
+                        changed = True
+    insts, viols = [], []
+    seen = set()
+    for f, fn in sorted(fns.items()):
+        taint = tainted_locals(fn)
+        for s in requirement_sites(f):
+            rc = reach(s.conds, s.var)
+            key = '%s:%s:%s[%s]' % (fname, f, s.what.replace('(...)', ''), s.var)
+            open_ = rc['subclass'] or rc['nonstr']
+            if s.var in fn.params:
+                status = 'propagated to the callers' if open_ else 'guarded: exact str only'
+            elif not open_:
+                status = 'guarded: exact str only'
+            elif s.var in taint:
+                status = 'VIOLATION'
+            else:
+                status = 'local not taken from a caller-supplied container (trusted)'
+            if (key, status) in seen:
+                continue
+            seen.add((key, status))
+            insts.append((key, '%s — %s' % (key, status)))
+            if status == 'VIOLATION':
+                chain = s.what if s.kind == 'raw' else '%s -> %s' % (s.what, sinks[s.callee][s.argpos])
+                viols.append((key, fn.line, '`%s` in %s() is taken out of the caller\'s keyword container and reaches a representation-level string comparison (%s) also when it is %s: '
+                              'keyword names that are str subclasses must be matched with their own __eq__/__hash__ (PyObject_RichCompare), as CPython does; only exact str may be '
+                              'compared by hash and character data' % (s.var, f, chain, ' or '.join(d for d in ('a str subclass', 'not a str') if rc['subclass' if d == 'a str subclass' else 'nonstr']))))
+    return insts, viols, sinks
+
+
+EXACT_CONTROL = '''
+static int eq_raw(PyObject *s1, PyObject *s2) {
+    return memcmp(PyUnicode_DATA(s1), PyUnicode_DATA(s2), 4) == 0;
+}
+static int match_str(PyObject *key, PyObject ***names) {
+    PyObject *n = **names;
+    return eq_raw(n, key);
+}
+static int match_any(PyObject *key, PyObject ***names) {
+    return PyObject_RichCompareBool(**names, key, Py_EQ);
+}
+static int match(PyObject *key, PyObject ***names) {
+    return likely(PyUnicode_Check(key)) ? match_str(key, names) : match_any(key, names);
+}
+static int parse(PyObject *kwds, PyObject ***names) {
+    PyObject *key = PyTuple_GET_ITEM(kwds, 0);
+    return match(key, names);
+}
+'''
+
+
+def rule_exact(ctx, floor=7):
+    r = Rule('C24-EXACT', 'FunctionArguments.c: an object taken out of the caller\'s keyword container reaches a representation-level string comparison (PyUnicode_DATA/memcmp, '
+             '->hash of the unicode struct, PyUnicode_Compare) only under a condition that holds for exact str alone (truth table over {exact str, str subclass, not a str})', floor)
+    rel = 'Cython/Utility/FunctionArguments.c'
+    text = strip_c_comments(ctx.read(rel))
+    insts, viols, sinks = exact_analysis(text)
+    for k, sample in insts:
+        r.inst(k, sample=sample)
+    if not viols and not any('guarded' in s for _, s in insts):
+        raise AnalysisError('C24-EXACT: no guarded representation-level comparison found in FunctionArguments.c (the sink/guard model no longer matches the code)')
+    for k, line, msg in viols:
+        r.violate(k, rel, line, msg)
+    _, ctl, _ = exact_analysis(strip_c_comments(EXACT_CONTROL), 'control')
+    _, ctl2, _ = exact_analysis(strip_c_comments(EXACT_CONTROL.replace('PyUnicode_Check(key)', 'PyUnicode_CheckExact(key)')), 'control')
+    r.positive_control([k for k, _, _ in ctl] == ['control:parse:match[key]'] and not ctl2, 'dispatch on PyUnicode_Check sends str subclasses to the memcmp matcher')
     return r
